@@ -54,6 +54,7 @@ Record st := mkSt {
   fontstack : list str; xverse : bool; incell : bool; nesting : Z;
   (* the world: which files exist (os.Stat); frundis sources by path; FRUNDISLIB directories; -x *)
   existing : list str; fs : list (str * str); libdirs : list str; unrestricted : bool;
+  urls : list (str * option str);                     (* oracle: url.Parse(u).String() for the urls of the document; None = parse error *)
   (* output mode and files: 0 fragment to one file, 1 standalone single file, 2 multi-file directory *)
   mode : nat; files : list (str * str); curfile : str; navtext : str;
   (* log *)
@@ -63,7 +64,7 @@ Record st := mkSt {
   <macro; args; prev; line; text; process; quiet; inl; asis; par; verse; ws; buf; wout; raw; bf; sblock; sinline; sif;
    toc; lox_toc; lox_nav; lox_lof; lox_lot; lox_lop; ids; images;
    tcell; tcount; ttit; tcols; tid; ttitle; tscope; ttitscope; tinfo; fig; vused; vcount; cid; cidx;
-   params; dtags; mtags; ifdepth; udef; umacros; ivars; cdepth; cloc; xcount; xexh; cfile; incstack; has_cur; elided; format; fontstack; xverse; incell; nesting; existing; fs; libdirs; unrestricted; mode; files; curfile; navtext; diags; panicked>.
+   params; dtags; mtags; ifdepth; udef; umacros; ivars; cdepth; cloc; xcount; xexh; cfile; incstack; has_cur; elided; format; fontstack; xverse; incell; nesting; existing; fs; libdirs; unrestricted; urls; mode; files; curfile; navtext; diags; panicked>.
 #[export] Instance eta_toc : Settable _ := settable! mkToc <hasPart; hasChapter; hcount; pcount; ccount; scount; sscount; pnum; cnum; snum; ssnum>.
 
 (* ctx.Error: respects quiet; location from the outermost user-macro call if any, else the current block *)
